@@ -55,6 +55,9 @@ static void setS4(const int *d, vcase *c)
     c->n = c->m = 4; c->pat = (uint64_t)d[0]; c->vals = VALS_S[d[1]]; c->colperm = CP3[d[0] % 3]; c->equil = d[2]; c->type = d[3]; set_tune(c, TUNE_X[d[4]]); c->stor = (d[0] >> 3) & 1; c->trans = (d[0] >> 5) % 3;
     c->cond = 1; c->growth = 1; c->refine = d[0] & 1; c->nrhs = 1; c->rhs = 1; c->u = 1.0; c->permid = -1; c->aux = 1;
 }
+/* C04x: the same, with PivotGrowth / ConditionNumber each on and off (the singular return path differs) */
+static void setSx(const int *d, vcase *c) { setS(d, c); c->growth = d[8] & 1; c->cond = (d[8] >> 1) & 1; }
+static void setS4x(const int *d, vcase *c) { setS4(d, c); c->growth = (d[0] >> 7) & 1; c->cond = (d[0] >> 9) & 1; }
 #define FAM_A(nv) { "ALL(1..3) x vals x colperm{NAT,COLAMD,MMD_AT+A} x u{1,.1} x tune{0,3,5} x type4 x trans3 x equil2 x refine2 x stor2 x rhs-shape2", 11, { N_ALL123, nv, 3, 2, 3, 4, 3, 2, 2, 2, 2 }, setA }
 #define FAM_Aq(nv) { "ALL(1..3) x vals x colperm{NAT,COLAMD} x u{1} x tune{0,3} x type4 x trans3 x equil2 x refine2 x stor2 x rhs-shape2", 11, { N_ALL123, nv, 2, 1, 2, 4, 3, 2, 2, 2, 2 }, setA }
 #define FAM_B { "ALL(4) x vals2 x trans3 x equil2 x stor2 x type4", 6, { N_ALL4, 2, 3, 2, 2, 4 }, setB }
@@ -66,10 +69,13 @@ static void setS4(const int *d, vcase *c)
 static const family FAM05[] = { FAM_A(7), FAM_B, FAM_C(7) }, FAM05q[] = { FAM_Aq(7), FAM_B, FAM_Cq(7) };
 static const family FAM12[] = { FAM_A(10), FAM_B, FAM_C(10), FAM_S, FAM_S4 }, FAM12q[] = { FAM_Aq(10), FAM_B, FAM_Cq(10), FAM_S, FAM_S4q };
 static const family FAM13[] = { FAM_A(10), FAM_B, FAM_C(10) }, FAM13q[] = { FAM_Aq(10), FAM_B, FAM_Cq(10) };
-static const family FAM04X[] = { FAM_S, FAM_S4 }, FAM04Xq[] = { FAM_S, FAM_S4q };
+#define FAM_SX { "ALL(1..3) incl. singular x {V0,V1,V6} x colperm3 x equil2 x type4 x tune3 x stor2 x trans3 x PivotGrowth2 x ConditionNumber2", 9, { N_ALL123, 3, 3, 2, 4, 3, 2, 3, 4 }, setSx }
+#define FAM_S4X { "ALL(4) incl. singular x {V0,V1,V6} x equil2 x type4 x tune3 (PivotGrowth, ConditionNumber from the pattern index)", 5, { N_ALL4, 3, 2, 4, 3 }, setS4x }
+#define FAM_S4Xq { "ALL(4) incl. singular x {V0,V1,V6} x equil2 x type4 x tune{0} (PivotGrowth, ConditionNumber from the pattern index)", 5, { N_ALL4, 3, 2, 4, 1 }, setS4x }
+static const family FAM04X[] = { FAM_SX, FAM_S4X }, FAM04Xq[] = { FAM_SX, FAM_S4Xq };
 #define NF(F) ((int)(sizeof F / sizeof *F))
 /* other build variants (vendor BLAS, sanitizers): the ALL(1..3) and DEV_1 families only */
-static const family FAM05v[] = { FAM_Aq(7), FAM_Cq(7) }, FAM12v[] = { FAM_Aq(10), FAM_Cq(10), FAM_S }, FAM13v[] = { FAM_Aq(10), FAM_Cq(10) }, FAM04Xv[] = { FAM_S };
+static const family FAM05v[] = { FAM_Aq(7), FAM_Cq(7) }, FAM12v[] = { FAM_Aq(10), FAM_Cq(10), FAM_S }, FAM13v[] = { FAM_Aq(10), FAM_Cq(10) }, FAM04Xv[] = { FAM_SX };
 #define DEFSPACE(tag, F, Fq, Fv, mode) \
     static const family *pick_##tag(int tier, int *nf) { if (strcmp(wk_variant, "ref")) { *nf = NF(Fv); return Fv; } if (tier) { *nf = NF(F); return F; } *nf = NF(Fq); return Fq; } \
     static long sz_##tag(int tier) { int nf; const family *f = pick_##tag(tier, &nf); return fam_total(f, nf); } \
